@@ -130,10 +130,12 @@ def run(ctx):
         examine(ctx, ("replay", rp["permits"], rp["spurious"], rp["script"]), lines, model)
     else:
         jobs = []
-        cap = ctx.pick(6000, 400000)
+        cap = ctx.pick(6000, 30000)
         dfs_scripts = ["ar/ar", "br/br", "as1/r", "as1/ar", "ar/a", "a/ar", "ar/br", "r/as0"]
+        # three threads, two of them waiting at once (capped DFS): multi-waiter wake-up chains
+        dfs_scripts += ["aarr/ar/ar", "ar/ar/ar", "as1as1/rr/ar"]
         if not ctx.quick:
-            dfs_scripts += ["arar/ar", "as1as1/rr", "aar/ar", "brbr/br", "as1/as0r/r", "ar/ar/ar", "as1/as2/as0"]
+            dfs_scripts += ["arar/ar", "as1as1/rr", "aar/ar", "brbr/br", "as1/as0r/r", "as1/as2/as0", "aarr/ar/ar/ar"]
         for sc in dfs_scripts:
             for permits in (0, 1, 2):
                 for sp in (0, 1):
